@@ -1,5 +1,6 @@
 ---- MODULE MC_RockWriter ----
 EXTENDS RockWriter
 FixNone == {}
+FixCur == {"anchored", "size"}      \* the tree after e2d5c44 and 204d147
 FixAllV == {"anchored", "size", "own", "undo", "version"}
 ====
